@@ -20,6 +20,10 @@ class Boom(Exception):
     pass
 
 
+class Stop(BaseException):
+    """an application's own exception that does not derive from Exception"""
+
+
 class FalsyCallable(object):
     """a handler object whose truth value is False"""
     def __init__(self, f): self.f = f
@@ -297,12 +301,15 @@ class C05(Check):
         if k == "other": return pick([0, 1, "x", [], [True, True], self.Point(True, True), 2.5])
         raise ValueError(k)
 
-    def _exc(self, e):
+    def _exc(self, e, v=0):
+        if e == "base":                  # not an Exception: raiseEventNoErrors' bare `except:` suppresses these too
+            return [Stop, GeneratorExit, SystemExit, KeyboardInterrupt][v % 4]("scripted")
         return {"revent": self.rv.ReventError, "key": KeyError, "attr": AttributeError, "unbound": UnboundLocalError, "other": Boom}[e]("scripted")
 
     @staticmethod
     def _kind(e):
-        return {"ReventError": "revent", "KeyError": "key", "AttributeError": "attr", "UnboundLocalError": "unbound", "Boom": "other",
+        return {"ReventError": "revent", "KeyError": "key", "AttributeError": "attr", "UnboundLocalError": "unbound", "Boom": "other", "Stop": "base", "GeneratorExit": "base", "SystemExit": "base",
+                "KeyboardInterrupt": "base",
                 "TypeError": "other"}.get(type(e).__name__, type(e).__name__)
 
     # ------------------------------------------------------------------ the implementation run
@@ -390,14 +397,14 @@ class C05(Check):
                 for a, guarded in sc["acts"]:
                     try:
                         r = perform(a)
-                    except Exception as e:
+                    except BaseException as e:       # scripted SystemExit / KeyboardInterrupt must not end the run
                         log.append(["res", ["exc", self._kind(e)]])
                         if not guarded: raise
                     else:
                         log.append(["res", r])
                 if sc["ret"]["k"] == "exc":
-                    raise self._exc(sc["ret"]["e"])
-            except Exception as e:
+                    raise self._exc(sc["ret"]["e"], sc["ret"].get("v", 0))
+            except BaseException as e:       # scripted SystemExit / KeyboardInterrupt must not end the run
                 log.append(["ret", fid, hid, ["exc", self._kind(e)], bool(event.halt)])
                 raise
             ret = sc["ret"]
@@ -448,7 +455,7 @@ class C05(Check):
                     elif via == 5: r = src.addListener(Ev[et], h, once_v, weak is not None, prio_v)              # positional
                     elif via == 6: r = src.addListenerByName("Ev%d" % et, h, once_v, weak is not None, prio_v)
                     else: r = src.addListener(Ev[et], h, **kw)
-                except Exception as e:
+                except BaseException as e:       # scripted SystemExit / KeyboardInterrupt must not end the run
                     addchecks.append([i, et, self._kind(e), before == dump(i)]); raise
                 addchecks.append([i, et, "ok", None])
                 subs.append([i, r[1] - base, r[0].idx, hid, bool(a["once"]), weak])
@@ -501,7 +508,7 @@ class C05(Check):
                 form = op + ("+et" if second is not None else "")
                 try:
                     r = src.removeListener(arg, Ev[second]) if second is not None else src.removeListener(arg)
-                except Exception as e:
+                except BaseException as e:       # scripted SystemExit / KeyboardInterrupt must not end the run
                     rmchecks.append([form, was, present(i, pred, scope), self._kind(e)]); raise
                 rmchecks.append([form, was, present(i, pred, scope), "ok"])
                 return bool(r)
@@ -526,7 +533,7 @@ class C05(Check):
                 f = src.raiseEventNoErrors if a["noerr"] else src.raiseEvent
                 try:
                     r = f(junk)
-                except Exception as e:
+                except BaseException as e:       # scripted SystemExit / KeyboardInterrupt must not end the run
                     junkchecks.append([i, a["noerr"], ["exc", self._kind(e)]]); raise
                 res = "none" if r is None else ["event", bool(r.halt)]
                 junkchecks.append([i, a["noerr"], res])
@@ -555,7 +562,7 @@ class C05(Check):
                     if xa == 0: r = f(ev_) if form == "inst" else f(Ev[et], fid)
                     elif xa == 1: r = f(ev_, 7, k=8) if form == "inst" else f(Ev[et], fid, 7, k=8)      # extra arguments
                     else: r = f(ev_, k=8) if form == "inst" else f(Ev[et], fid=fid, k=8)               # keywords only
-                except Exception as e:
+                except BaseException as e:       # scripted SystemExit / KeyboardInterrupt must not end the run
                     snaps[fid]["result"] = ["exc", self._kind(e)]; raise
                 finally:
                     if old_fid is not None: ev_.fid = old_fid          # an outer delivery of the same object goes on under its own number
@@ -570,7 +577,7 @@ class C05(Check):
         for a in case["ops"]:
             try:
                 r = perform(a)
-            except Exception as e:
+            except BaseException as e:       # scripted SystemExit / KeyboardInterrupt must not end the run
                 log.append(["res", ["exc", self._kind(e)]])
             else:
                 log.append(["res", r])
@@ -924,10 +931,19 @@ class C05(Check):
         # error suppression, instance and class form
         for pos in range(4):
             for k, kw in (("false", {}), ("true", {}), ("tup0", {}), ("tup1", {"h": True}), ("other", {}), ("tup2", {"h": True, "r": True}),
-                          ("tup2", {"h": False, "r": True}), ("exc", {"e": "other"}), ("exc", {"e": "revent"}), ("exc", {"e": "key"})):
+                          ("tup2", {"h": False, "r": True}), ("exc", {"e": "other"}), ("exc", {"e": "revent"}), ("exc", {"e": "key"}),
+                          ("exc", {"e": "base", "v": pos})):
                 for noerr in (False, True):
                     S.append(case([add(0, 1), add(0, 2, once=(pos == 1)), add(0, 3, 2), add(0, 4, weak=1), R(0, "inst", noerr), R(0, "cls", noerr), cnt()],
                                   [([3, 1, 2, 4][pos], [sc(ret=k, **kw), sc()])]))
+        # exceptions that do not derive from Exception (an application's own, GeneratorExit, SystemExit, KeyboardInterrupt): error-suppressed
+        # raising suppresses them like any other, plain raising lets them through; directly, from a nested delivery, from a one-shot handler
+        for v in range(4):
+            for form in ("inst", "cls"):
+                S.append(case([add(0, 1), add(0, 2, once=True), add(0, 3), R(0, form, True), R(0, form, False), R(0, form, True), cnt()],
+                              [(2, [sc(ret="exc", e="base", v=v)]), (1, [sc(), sc(ret="exc", e="base", v=v), sc()])]))
+                S.append(case([add(0, 1), add(1, 2), R(0, form, True), R(0, form, False)],
+                              [(1, [sc([(R(1, form, True), False), (R(1, form, False), True), (R(1, form, False), False)])] * 2), (2, [sc(ret="exc", e="base", v=v)] * 6)]))
         # HARDENING 1/2 (hidden or shared state): two instances of ONE source class must not share anything; the same handler on both
         for kind in ("set", "list", "tuple", "frozenset"):
             twin = [source([0, 1], kind=kind, cls=1), source([0, 1], kind=kind, cls=1)]
@@ -1133,7 +1149,7 @@ class C05(Check):
         r = {"k": k, "v": rng.randint(0, 11)}
         if k in ("tup1", "tup2"): r["h"] = rng.random() < 0.4
         if k == "tup2": r["r"] = rng.random() < 0.5
-        if k == "exc": r["e"] = rng.choice(["other", "other", "other", "key", "revent"])
+        if k == "exc": r["e"] = rng.choice(["other", "other", "other", "key", "revent", "base"])
         return r
 
     DECL = [[0, 1], [0, 1], [0, 1, 2], [0], [0, 3], [3, 4], [0, 1, 5], [1, 3, 5]]
